@@ -123,12 +123,18 @@ def build(tier="quick", seed=0):
                     # the with-block is left by an exception that the caller catches further up: the writer is closed like on any other exit
                     exc = ValueError("the block failed")
                     it.call(it.getattr_(w, "__exit__"), [ValueError, exc, None], {})
+            # what was handed to the file object reaches the disk when the file object is flushed or closed (a buffered file keeps the tail in memory until then)
+            f = it.vfs.get(path) if getattr(it, "vfs", None) else None
+            ops = [e[0] for e in getattr(f, "log", [])]
+            pending = None
+            if "write" in ops and not any(o in ("flush", "close") for o in ops[len(ops) - ops[::-1].index("write"):]):
+                pending = f"the writer is closed but its file {path} was neither flushed nor closed after the last write: what the file object still buffers is not on disk"
             try:
                 back = rd(path)
                 err = None
             except PyRaise as e:
                 back, err = [], f"{e.cls_name}: {e}"
-            return written, back, err
+            return written, back, err or pending
         return th
 
     def judge_history(p):
@@ -454,7 +460,7 @@ def build(tier="quick", seed=0):
 
     pack.add(Obligation("C17.writer_sweep", run_sweep, kind="bounded", note="native run on real files, read back with the matching reader and with independent tools (gzip, fastavro, sqlite3, json): random write / flush / close / with-exit histories per writer adapter and compression; "
                         "split for record counts N x limits x suffix lengths x target URIs (parts readable on their own, concatenation record-wise); rotation with pre-existing files; bound 60 (quick) / 1200 (thorough) cases", functions=FU))
-    pack.assumptions += ["file contract: content written before close() is durable after close(); flush() does not change content", "fastavro / sqlite3 ghost-state models (sampled by C17.cross)", "file system model: rename replaces an existing target (POSIX), open for writing truncates",
+    pack.assumptions += ["file contract: what was handed to a file object is on disk once the file object is flushed or closed afterwards (the close histories check that a flush or close of the file follows the last write); flush() does not change content", "fastavro / sqlite3 ghost-state models (sampled by C17.cross)", "file system model: rename replaces an existing target (POSIX), open for writing truncates",
                          "gzip / bz2 / lz4 / zstd are transparent wrappers in the deductive part (real codecs only in the native sweep)", "the clock is modelled for the rotation stamp (datetime.now)"]
     pack.not_covered = ["OS-level durability (fsync, power loss), races between os.path.exists and os.rename",
                         "__del__ driven closing at interpreter shutdown"]
